@@ -43,9 +43,3 @@ Definition pinned_decls_mapset : list string :=
 
 Definition ok_mapset : Prop :=
   of_file fst "mapset.go" InvMapset.inventory = pinned_mapset /\ of_file (fun s => s) "mapset.go" InvMapset.decls = pinned_decls_mapset.
-
-Lemma C18_inventory_mapset : InvMapset.files = pinned_files /\ ok_mapset.
-Proof. unfold ok_mapset; repeat split; vm_compute; reflexivity. Qed.
-
-Lemma C19_inventory_mapset : InvMapset.files = pinned_files /\ ok_mapset.
-Proof. unfold ok_mapset; repeat split; vm_compute; reflexivity. Qed.
